@@ -68,8 +68,9 @@ class Mutable(object):
 
 
 class _CM(object):
-  def __init__(self, f):
+  def __init__(self, f, name=None):
     self.f = f
+    self.name = name
 
   def __call__(self, x):
     return self.f(x)
@@ -122,9 +123,9 @@ def replay_rewrite(target, model, nr, nrho, w):
   return (bool(bad), "; ".join(bad[:3]) or "both writes agree with the functions in force at the time", rec)
 
 
-def api_case(target, elements, pairs, nr, nrho, route="class", rot=0, dip=None, quad=None, extra_vcs=None, rewrite=True):
+def api_case(target, elements, pairs, nr, nrho, route="class", rot=0, dip=None, quad=None, extra_vcs=None, rewrite=True, surplus=None):
   fs = target.endswith("_fs")
-  model = EC.Model(elements, pairs, fs=fs, dip=dip, quad=quad, pair_list_rotation=rot)
+  model = EC.Model(elements, pairs, fs=fs, dip=dip, quad=quad, pair_list_rotation=rot, surplus=surplus)
   res = new_result("api %s %s nr=%d nrho=%d %s" % (target, model.describe(), nr, nrho, route))
 
   def fn():
@@ -206,3 +207,138 @@ def api_case(target, elements, pairs, nr, nrho, route="class", rot=0, dip=None, 
     shims.uninstall()
   res["nontrivial"] = res["vcs"]
   return res
+
+
+def surplus_cases(target, tier, api=None, **kw):
+  """cases in which the pair list handed to the writer also holds potentials for species the model does not tabulate
+  (a pair list shared between several models): the file is the same as without them"""
+  from symx.run import Case
+  api = api or api_case
+  orders = [("Cu",), ("Cu", "Al"), ("Al", "Cu"), ("Zr", "Cu", "Al")] + ([] if tier == "quick" else [("Al", "Zr", "Cu"), ("Cu", "Zr")])
+  out = []
+  for i, order in enumerate(orders):
+    keys = EC.all_pair_keys(order)
+    for j in range(2 if tier == "quick" else 5):
+      st = {}
+      for n, k in enumerate(keys):
+        c = (i + j + n) % 3
+        st[k] = None if c == 0 else ((k[0], k[1]) if c == 1 or k[0] == k[1] else (k[1], k[0]))
+      sur = [[(order[j % len(order)], "Xe")], [("Xe", order[-1]), ("Xe", "Xe")], [("He", order[0]), (order[-1], "Xe")],
+             [("Xe", "He")], [(order[0], "Xe"), ("Xe", order[0])]][(i + j) % 5]
+      extra = dict(kw)
+      if target == "eam_adp":
+        extra.update(dip=dict(st), quad={k: (None if v else (k[0], k[1])) for k, v in st.items()})
+      out.append(Case("api %s %s surplus pairs %s #%d" % (target, "/".join(order), ",".join("%s-%s" % p for p in sur), j), api, target=target,
+                      elements=order, pairs=st, nr=2 + (i + j) % 3, nrho=2 + j % 2, route="class" if (i + j) % 2 or target == "eam_adp" else "func",
+                      rot=i + j, surplus=sur, **extra))
+  return out
+
+
+# ---------------------------------------------------------------------------
+# history: another model of the same shape failed part-way through its write, was dropped, then this model is written
+
+class _Boom(Exception):
+  pass
+
+
+def _raiser(x):
+  raise OverflowError("density out of range (injected)")
+
+
+def _last_density_index(model, made):
+  idx = [i for i, m in enumerate(made) if m.name.startswith("doomed_rho_")]
+  return idx[-1]
+
+
+def _failed_write_then(target, model, mk, meta, cutoff, nr, cutoff_rho, nrho, route):
+  """the sequence itself (shared by the symbolic run and the concrete replay): returns the text of the second model"""
+  import gc
+  made = []
+
+  def mk_doomed(name):
+    m = mk("doomed_" + name)
+    made.append(m)
+    return m
+  eampots, pairpots, d, q = EC.build_objects(model, mk_doomed, meta)
+  # the last function created for the last element fails at its first evaluation
+  made[_last_density_index(model, made)].f = _raiser
+  try:
+    write_target(target, route, model, eampots, pairpots, d, q, cutoff, nr, cutoff_rho, nrho, Sink())
+    failed = False
+  except OverflowError:
+    failed = True
+  del eampots, pairpots, d, q
+  del made[:]
+  gc.collect()
+  eampots, pairpots, d, q = EC.build_objects(model, mk, meta)
+  out = Sink()
+  write_target(target, route, model, eampots, pairpots, d, q, cutoff, nr, cutoff_rho, nrho, out)
+  return out.getvalue(), failed
+
+
+def after_failure_case(target, elements, pairs, nr, nrho, cutoff=4.5, cutoff_rho=7.5, route="func", rot=0, dip=None, quad=None):
+  """arbitrary (uninterpreted) functions on a concrete grid: model A fails during its write and is dropped; model B, same
+  shape and grid, new function objects, is then written and must hold B's functions only"""
+  fs = target.endswith("_fs")
+  model = EC.Model(elements, pairs, fs=fs, dip=dip, quad=quad, pair_list_rotation=rot)
+  res = new_result("api %s %s nr=%d nrho=%d %s after a failed write of another model" % (target, model.describe(), nr, nrho, route))
+
+  def fn():
+    text, failed = _failed_write_then(target, model, Mutable, EC.sym_meta, cutoff, nr, cutoff_rho, nrho, route)
+    return text, failed
+
+  def build(path, wrong=False):
+    if path.exc is not None:
+      raise Structural("exception", "%s: %s" % (type(path.exc).__name__, path.exc))
+    text, failed = path.value
+    if not failed:
+      raise Structural("no-failure", "the injected failure did not stop the first write")
+    dr = rv(cutoff) / rv(nr - 1) * (2 if wrong else 1)
+    drho = rv(cutoff_rho) / rv(nrho - 1)
+    try:
+      parsed, O, E = observed_expected(target, text, model, nr, nrho, dr, drho, EC.z3_alg(), EC.z3_meta)
+    except eamtables.FormatError as e:
+      raise Structural("format", "reader rejects the file: %s" % e)
+    vcs = EC.vcs_from(path, O, E)
+    for v in vcs:
+      v.info = dict(v.info or {}, key="after-failed-write-" + (v.info or {}).get("key", "slot"))
+    return vcs
+
+  def replay(v, w, path, structural):
+    names = EC.function_names(model)
+    funcs = EC.concrete_functions(names + ["doomed_" + n for n in names])
+    try:
+      text, failed = _failed_write_then(target, model, lambda name: _CM(funcs[name], name), EC.conc_meta, cutoff, nr, cutoff_rho, nrho, route)
+      dr, drho = cutoff / (nr - 1), cutoff_rho / (nrho - 1)
+      parsed, O, E = observed_expected(target, text, model, nr, nrho, dr, drho, EC.float_alg(funcs), EC.conc_meta)
+      style = EP.STYLE.get(target)
+      bad = EC.compare_dicts(O, E, 1e-12, 1e-12) if style else EC.compare_dicts(O, E, 1e-9, 6e-7)
+    except Exception as e:  # noqa
+      bad = ["%s: %s" % (type(e).__name__, e)]
+    rec = dict(kind="eam_after_failure", target=target, model=model.describe(), nr=nr, nrho=nrho, cutoff=cutoff, cutoff_rho=cutoff_rho, mismatches=bad[:10])
+    return (bool(bad), "a model of the same shape failed during its write and was dropped; the table written next: " + ("; ".join(bad[:3]) or "agrees with its own functions"), rec)
+
+  shims.install()
+  try:
+    explore_and_check(res, fn, build, replay=replay, negative=lambda p: build(p, wrong=True))
+  finally:
+    shims.uninstall()
+  res["nontrivial"] = res["vcs"]
+  return res
+
+
+def after_failure_cases(target, tier, **kw):
+  from symx.run import Case
+  orders = [("Cu",), ("Al", "Cu"), ("Zr", "Cu", "Al")] + ([] if tier == "quick" else [("Cu", "Al"), ("Al", "Zr", "Cu")])
+  out = []
+  for i, order in enumerate(orders):
+    cov = EC.covering_pair_states(order, seed=i)
+    for j in range(1 if tier == "quick" else 3):
+      st = cov[(i + 2 * j) % len(cov)]
+      extra = dict(kw)
+      if target == "eam_adp":
+        extra.update(dip=cov[(i + 1) % len(cov)], quad=cov[(i + 2) % len(cov)])
+      for route in (("func", "class") if target != "eam_adp" else ("class",)):
+        out.append(Case("api %s %s after a failed write #%d %s" % (target, "/".join(order), j, route), after_failure_case, target=target, elements=order, pairs=st,
+                        nr=3 + j, nrho=3, route=route, rot=i + j, **extra))
+  return out
